@@ -99,6 +99,11 @@ class CallLog:
             r = getattr(mod, fname)(*args)
             out = ('ok', r)
             self.calls.append([fname, eargs, ['ok', enc(r)]])
+        except symnp.FrozenWrite as ex:
+            # the function wrote to an array that belongs to the caller: reported as a (non-'ok') outcome so that the
+            # harness's clause fails and the counterexample is replayed, instead of aborting the harness
+            out = ('exc', 'MutatedArgument')
+            self.calls.append([fname, eargs, ['exc', 'MutatedArgument']])
         except expect_exc as ex:
             out = ('exc', type(ex).__name__)
             self.calls.append([fname, eargs, ['exc', type(ex).__name__]])
